@@ -68,6 +68,9 @@ class Env:
         return z3.Function(name, *sorts)
 
     def skolem(self, name, ty='int'):
+        if isinstance(ty, Kind):
+            # a Skolem constant of a structured kind (e.g. an address pair): handed to clauses as its z3 term
+            return z3.Const(name, ty.sort())
         t = z3.Const(name, Kind(ty).sort())
         return self._reg(name, Sym(t, ty))
 
